@@ -221,10 +221,29 @@ def run(ctx, res):
         if p.end != "exit":
             continue
         locs = {}
+        wide = {}     # out-symbol of a multi-byte read of the separator -> (source address, size)
         for e in p.events:
             if e.kind == "store" and e.a.isidentifier():
                 locs[e.a] = e.b
             mods = []
+            if e.kind == "call" and e.a == "memcpy" and APE.vstr(e.b[1]).startswith("&ubuf_data(%s)" % sepf.params[0]["name"]) and 0 in e.outs:
+                wide[APE.vstr(e.outs[0])] = (APE.vstr(e.b[1]), APE.vstr(e.b[2]))
+            # a value derived from a wider read must be written back whole, at the place it was read from
+            if e.kind == "store" and e.a.startswith("ubuf_data(%s)" % sepf.params[0]["name"]):
+                for sym, (addr, size) in wide.items():
+                    if sym in APE.vstr(e.b):
+                        res.bad("C09.R6", site(sepf, "partial-write-back"),
+                                "a value computed from a %s-byte read of the separator is stored back into a single byte: the carry into the other byte(s) is lost and "
+                                "the index key can sort below the block's last key" % size.lstrip("#"), sepf.loc(e.node), p.describe(sepf))
+            if e.kind == "call" and e.a == "memcpy" and APE.vstr(e.b[0]).startswith("&ubuf_data(%s)" % sepf.params[0]["name"]):
+                src = APE.vstr(e.b[1])
+                val = APE.vstr(locs.get(src[1:], ("s", src))) if src.startswith("&") else src
+                for sym, (addr, size) in wide.items():
+                    if sym in val:
+                        res.check(APE.vstr(e.b[0]) == addr and APE.vstr(e.b[2]) == size, "C09.R6", site(sepf, "whole-write-back"),
+                                  "the incremented %s-byte value is written back whole at the address it was read from" % size.lstrip("#"),
+                                  "the incremented value read from %s (%s bytes) is written back to %s (%s bytes)" % (addr, size, APE.vstr(e.b[0]), APE.vstr(e.b[2])),
+                                  sepf.loc(e.node), p.describe(sepf))
             if e.kind == "store" and e.a.startswith("ubuf_data(%s)" % sepf.params[0]["name"]):
                 mods.append(APE.vstr(e.b))
             if e.kind == "call" and e.a == "memcpy" and APE.vstr(e.b[0]).startswith("&ubuf_data(%s)" % sepf.params[0]["name"]):
